@@ -777,7 +777,7 @@ def run(tier, seed):
         rnd.shuffle(multi)
         todo = single + multi[:1600]
     else:
-        todo = full
+        todo = list(full)
         # real constants beyond the scaled model: longer budgets and later terminate indexes
         for _ in range(3000):
             c = dict(rnd.choice(full))
